@@ -47,7 +47,8 @@ CLAIMS = {
          "arm and it is last, ...) yield w; C08_target_rule for the assignment target; C08_width_is_semantic_width ties the "
          "rule width to the evaluation width; C08_accepted (in every accepted program, under every iteration order, every "
          "assignment's target has a width in the program's width table, the rules give its expression a width, and the two "
-         "are equal or the expression is unsized: a program in which an assignment breaks a width rule is never accepted). "
+         "are equal or the expression is unsized: a program in which an assignment breaks a width rule is never accepted), "
+         "C08_accepted_constants (likewise every constant definition, whose value is the value of its definition). "
          "Width-mutated programs at every depth/boundary are compared with model and Spec.",
          "The converse at program level (every program rejected for a width reason breaks a rule; constants and register "
          "defaults) is modelled in Program.new and compared differentially with Spec.faults; the parser bounds (128) come "
@@ -146,7 +147,7 @@ CLAIMS = {
          "and evaluates identically under both, for every valuation (the flags occur in the model's check and applyBin; the "
          "specification's value does not mention them). The harness is rebuilt per cargo feature set and accept/reject + "
          "values are compared with model and specification run with the same flags.",
-         "Acceptance per flag set is compared with Spec.typeOf differentially; the iff theorem check <-> typeOf is future work.",
+         "check_eq_typeOf / C17_accept give acceptance of an expression under every flag set as exactly Spec.typeOf with the enabled rules; that two builds of a whole program accepted under two flag sets run identically is compared differentially (per-feature builds), not proved at program level.",
          "Lean 4 proof + per-feature-set differential builds"),
 }
 
